@@ -100,6 +100,13 @@ CLAIMED = {
              "Q[S-1] = cF*Q*(aS*mean+bS-1)+dF; stored S = F/Q+1 for Q>0; F = Q(S-1) on the common grid; each absent key == its identity "
              "value. NaN-freeness is a float statement checked by the oracle.", ref="8 (C17), 5",
              tech="Lean 4 theorems (case split over Option fields) on a hand-written model + exhaustive-subset correspondence"),
+ "C20": dict(text="Theorems on the hand model of Pre_Proc.rebin (bit-exact against the real code in the correspondence): grid = xmin+k*xdiv, "
+             "k < floor((xmax-xmin)/xdiv)+1, within [xmin,xmax]; the weight of an in-range point in bin k is the hat function "
+             "max(0,1-|x-g_k|/xdiv) (so exactly the points within one bin width count); each bin is numerator/weight with both as sums "
+             "over contributing points: linear in y, constants preserved, between min and max of contributing y, permutation invariant; "
+             "a point on node i gives weight 1 to node i, 0 to node i+1. Empty bins raise ZeroDivisionError in the code: theorems assume "
+             "non-zero accumulated weight.", ref="8 (C20), 5",
+             tech="Lean 4 theorems (floor arithmetic, fold = sums) on a hand-written model + correspondence + hat-weight oracle"),
 }
 
 m = {"version": 1, "setup_cmd": "./setup.sh",
